@@ -13,6 +13,12 @@ CLAIMED = {
         text="Round-trip oracle decode(encode(i))==i / encode(decode(b))==b over every opcode byte with the full cross product of 29 boundary bit patterns per operand slot (exhaustive for that grid), every truncation length, exact-fit heap buffers under ASan, plus random operands and random byte strings; assemble(disassemble(m)) compared on code bytes, function table and string pool for compiler-produced modules from generated programs (hostile string alphabets, label-capacity family) and from the repository's tests/examples. Exploration: random parts sample the space; only the grid is complete.",
         note="Trusts clang ASan/UBSan to expose out-of-bounds accesses; 'defined opcode' is taken from the implementation's own table (isa_get_info), so a consistent re-numbering is not a violation; the textual form has no directive for imports/debug/flags, which the property does not claim.",
         design="3/C11"),
+    "C12": dict(
+        category="fault_enumeration",
+        technique="exhaustive fault enumeration (every body bit flip, every truncation, bursts 2..32 bits at every offset with sampled interiors, tails, magic/version values) against the loader in-process under ASan; Hypothesis-drawn faults end to end through nano_vm",
+        text="For each of several compiler-produced files (fixed programs covering all section kinds + seed-chosen repository programs) the fault space named by the property is enumerated: complete for single-bit flips, truncation lengths and magic/version values, complete over (offset, length) for bursts with fixed and sampled interior patterns; oracle nvm_deserialize == NULL on exact-size heap buffers (ASan/UBSan). A Hypothesis sample of the same fault space is applied to files on disk and run through nano_vm: non-zero exit, error text, no program output.",
+        note="Complete only for the files used; burst interiors and tail contents are sampled. Header fields other than magic/version are outside the statement ('after its header') and belong to C13.",
+        design="3/C12"),
 }
 
 NOT_YET = {
